@@ -87,8 +87,9 @@ class _StoreZip(Store):
 
         with zipfile.ZipFile(self._fp) as zf:
             for name in zf.namelist():
-                if strip_ext:
-                    name = name.replace(self._EXT_CONTAINED, '')
+                if strip_ext and name.endswith(self._EXT_CONTAINED):
+                    # remove the extension only, not every occurrence of it in the label
+                    name = name[:len(name) - len(self._EXT_CONTAINED)]
                 # always use default decoder
                 yield config_map.default.label_decode(name)
 
